@@ -594,7 +594,8 @@ fn lex_line(
 									first_error_token.get_or_insert(warning);
 								}
 							}
-							Some((_, 'u')) =>
+							// Unicode escapes are only valid in string literals.
+							Some((_, 'u')) if opening_quote == '"' =>
 							{
 								let literal = if let Some((_, '{')) =
 									iter.peek()
